@@ -14,7 +14,7 @@ func ParseAbsoluteURI(s string) (*AbsoluteURI, error) {
 }
 
 func (au *AbsoluteURI) Writer(writer io.Writer) (int, error) {
-	return fmt.Fprintf(writer, au.absURI)
+	return fmt.Fprintf(writer, "%s", au.absURI)
 }
 
 func (au *AbsoluteURI) String() string {
